@@ -13,6 +13,7 @@
 #include <stddef.h>
 #include <stdint.h>
 #include <stdarg.h>
+#include <sys/types.h>
 
 /* ------------------------------------------------------------------ rng */
 typedef struct { uint64_t s[4]; } rng_t;
@@ -131,7 +132,8 @@ void  sim_after(uint64_t delay_ns, sim_timed_fn fn, void *arg);
 /* faults: returns errno to inject (>0) or 0. site = short name e.g. "qwrite" */
 int   sim_fault(const char *site);
 int   sim_fault_pending_total(void);
-int   sim_faults_fired(void);
+int   sim_faults_fired(void);          /* error-injecting faults only (short transfers excluded) */
+int   sim_fault_fired_site(const char *site);
 
 /* simulated timerfd / clock / pidfd access for harness oracles */
 typedef struct sim_timer_rec {
@@ -210,6 +212,8 @@ int   sim_raise(int sig);
 
 /* hook the harness may install: called when a library seam closes fd */
 extern void (*sim_on_close_hook)(int fd, int kind);
+extern void (*sim_on_pipe_io_hook)(int fd, int is_write, const void *buf, ssize_t n); /* successful queue-pipe transfers */
+int sim_fd_peer(int fd);   /* other end of a pipe created by the code under test, -1 */
 /* hook called at every epoll_ctl reaching the seam: (epfd, op, fd, events, ret, errno) */
 extern void (*sim_on_epoll_ctl_hook)(int epfd, int op, int fd, uint32_t events, int ret, int err);
 /* harness-provided syscall emulation for sockets (optional) */
